@@ -417,6 +417,18 @@ def run_instance(inst):
                 out["valid_exc"] = type(e).__name__
         km = getattr(model, "k", None)
         out["k_model"] = km if isinstance(km, int) else NONE
+        # the per-walk edge repetition caps the walk models computed for themselves (observed internal state, used only to
+        # attribute a violation to the known finding about these caps)
+        eub = getattr(model, "edge_upper_bounds", None)
+        if isinstance(eub, dict):
+            import math as _m
+            caps = []
+            for (a_, b_), c_ in eub.items():
+                try:
+                    caps.append([rename(a_, syn), rename(b_, syn), int(_m.floor(float(c_) + 1e-9))])
+                except Exception:
+                    pass
+            out["repcaps_obs"] = sorted(caps)
         if "safety" in ops:
             out["walks_to_fix"] = rename([[list(e) for e in w] for w in (getattr(model, "walks_to_fix", None) or [])], syn)
             out["paths_to_fix"] = rename([[list(e) for e in w] for w in (getattr(model, "paths_to_fix", None) or [])], syn)
